@@ -471,6 +471,47 @@ def Op.vjpT (F : Op α n m) (u : CVec α n) (c : CVec α m) : CVec α n :=
   fun j => mulVec (transpose F.A) c j + (mulVec (transpose F.B) c j).conj
     + mulVec (transpose F.C) (fun i => (mulVec F.C u i + mulVec F.C u i) * c i) j
 
+
+/-- operators built with the operator algebra of `Operator` (`scico/operator/_operator.py`): every operation returns a new
+    `Operator` whose `eval_fn` is a closure over the operands, and `jvp`/`vjp`/`linop.jacobian` differentiate that closure —
+    `F(G)` (`__call__` with an operator: `lambda z: self(x(z))`), `F + G`, `F - G` (`lambda x: self(x) ± other(x)`),
+    `a * F`, `F * a` (`lambda x: other * self(x)`, real or complex scalar), `-F` (`-1.0 * self`) -/
+inductive OpT (α : Type) : Nat → Nat → Type where
+  | leaf {n m : Nat} (F : Op α n m) : OpT α n m
+  | comp {n k m : Nat} (F : OpT α k m) (G : OpT α n k) : OpT α n m
+  | add {n m : Nat} (F G : OpT α n m) : OpT α n m
+  | sub {n m : Nat} (F G : OpT α n m) : OpT α n m
+  | smul {n m : Nat} (a : Cx α) (F : OpT α n m) : OpT α n m
+  | neg {n m : Nat} (F : OpT α n m) : OpT α n m
+
+/-- `T(x)` -/
+def OpT.eval [One α] : {n m : Nat} → OpT α n m → CVec α n → CVec α m
+  | _, _, .leaf F, x => F.eval x
+  | _, _, .comp F G, x => F.eval (G.eval x)
+  | _, _, .add F G, x => vadd (F.eval x) (G.eval x)
+  | _, _, .sub F G, x => vsub (F.eval x) (G.eval x)
+  | _, _, .smul a F, x => fun i => a * F.eval x i
+  | _, _, .neg F, x => fun i => (⟨-1, 0⟩ : Cx α) * F.eval x i
+
+/-- `T.jvp(u, v)[1]` by the chain and sum rules (what `jax.jvp` computes for the composed closure) -/
+def OpT.jvp [One α] : {n m : Nat} → OpT α n m → CVec α n → CVec α n → CVec α m
+  | _, _, .leaf F, u, v => F.jvp u v
+  | _, _, .comp F G, u, v => F.jvp (G.eval u) (G.jvp u v)
+  | _, _, .add F G, u, v => vadd (F.jvp u v) (G.jvp u v)
+  | _, _, .sub F G, u, v => vsub (F.jvp u v) (G.jvp u v)
+  | _, _, .smul a F, u, v => fun i => a * F.jvp u v i
+  | _, _, .neg F, u, v => fun i => (⟨-1, 0⟩ : Cx α) * F.jvp u v i
+
+/-- what `jax.vjp(T, u)[1]` computes: the cotangent is pulled back through the tree in reverse (plain transposes;
+    multiplication by `a` transposes to multiplication by `a`) -/
+def OpT.vjpT [One α] : {n m : Nat} → OpT α n m → CVec α n → CVec α m → CVec α n
+  | _, _, .leaf F, u, c => F.vjpT u c
+  | _, _, .comp F G, u, c => G.vjpT u (F.vjpT (G.eval u) c)
+  | _, _, .add F G, u, c => vadd (F.vjpT u c) (G.vjpT u c)
+  | _, _, .sub F G, u, c => vsub (F.vjpT u c) (G.vjpT u c)
+  | _, _, .smul a F, u, c => F.vjpT u (fun i => a * c i)
+  | _, _, .neg F, u, c => F.vjpT u (fun i => (⟨-1, 0⟩ : Cx α) * c i)
+
 end op
 
 /-! ## differentiable functionals and losses as an expression language -/
